@@ -187,7 +187,7 @@ class C02(C01):
             ("len('True') == 4", None), ("len('True') == 4", "logic"), ("1 < 2 < 3", None), ("3 > 2 > 2", None),
             ("7 / 2", None), ("7 // 2", None), ("-7 % 3", None), ("2 ** -1", None), ("1 if [] else 2", "math"),
             ("min([3, 1], default=0)", None), ("'a' * 3 + 'b'", "math"), ("not 0 and 5", "math"),
-            ("1 < 2 and 'x'", "logic"), ("1 == 1.0 == True", None),
+            ("1 < 2 and 'x'", "logic"), ("1 == 1.0 == True", None), ("pi(1)", None), ("e()", "math"), ("inf(2, k=3) > 1", None),
         ]]
         return base + Check.corpus_cases(self)
 
